@@ -3,14 +3,22 @@ From Gv Require Import C18.Model C18.Spec.
 From Coq Require Import List NArith Arith Bool Lia.
 Import ListNotations.
 
-Lemma key_eqb_refl : forall k, key_eqb k k = true.
-Proof. intros [[[a b] c] d]; simpl. rewrite !N.eqb_refl. reflexivity. Qed.
+Lemma lines_eqb_eq : forall a b, lines_eqb a b = true <-> a = b.
+Proof.
+  induction a as [|[n v] a IH]; destruct b as [|[n' v'] b]; simpl; try (split; [discriminate | intro H; inversion H]; fail).
+  - split; auto.
+  - unfold line_eqb; simpl. rewrite !andb_true_iff, !N.eqb_eq, IH.
+    split; [intros [[-> ->] ->]; reflexivity | intro H; inversion H; auto].
+Qed.
 
 Lemma key_eqb_eq : forall a b, key_eqb a b = true <-> a = b.
 Proof.
-  intros [[[a1 a2] a3] a4] [[[b1 b2] b3] b4]; simpl. rewrite !andb_true_iff, !N.eqb_eq.
+  intros [[[a1 a2] a3] a4] [[[b1 b2] b3] b4]; simpl. rewrite !andb_true_iff, !N.eqb_eq, lines_eqb_eq.
   split; [intros [[[-> ->] ->] ->]; reflexivity | intros H; inversion H; auto].
 Qed.
+
+Lemma key_eqb_refl : forall k, key_eqb k k = true.
+Proof. intros. apply key_eqb_eq. reflexivity. Qed.
 
 Lemma key_eqb_spec : forall a b, reflect (a = b) (key_eqb a b).
 Proof. intros a b. destruct (key_eqb a b) eqn:E; constructor; [apply key_eqb_eq; auto | intro H; apply key_eqb_eq in H; congruence]. Qed.
